@@ -27,7 +27,7 @@ if echo "\$out" | grep -q "^VIOLATION"; then
 	echo "\$c FAILS: \$(echo "\$out" | grep -E '^(VIOLATED|UNDECIDED)' | cut -c1-260 | head -3 | tr '\\n' '|')"
 fi > $T/\$c.out
 EOS
-printf '%s\n' $LIST | xargs -P 6 -n 1 sh $T/one.sh
+printf '%s\n' $LIST | xargs -P 12 -n 1 sh $T/one.sh
 for c in $LIST; do cat $T/$c.out 2>/dev/null; done
 git -C $R reset -q --hard HEAD; git -C $R clean -fdq 2>/dev/null
 rm -rf /tmp/trymutant_ev$$
